@@ -451,6 +451,40 @@ theorem api_define_with_line_break_is_rejected (inc : String → State → Excep
   unfold runInitial
   rw [key pre [] ms hpre]
 
+/-- **rejected_directive_rejects_the_file** (wave 5).  A directive line that `preprocess_command` rejects whatever the
+state -- `#pragma` with an unknown or missing name, a directive name that is none, `#include` whose operand is not one
+string literal / header name -- makes the file fail, wherever it stands and whatever follows it: the lines in front of
+it are processed as usual, the text pending in front of it is expanded first (the line state machine flushes when it
+meets the `#`), and if that succeeds the error of the directive is the result -- nothing behind the line is looked at. -/
+theorem rejected_directive_rejects_the_file (inc : String → State → Except Err State) (cur : String) (st0 : State)
+    (pre post : List Line) (e : Err) :
+    runFile inc cur st0 (pre ++ .rejected e :: post) =
+      (match foldLines inc cur (st0, fileStart (pre ++ .rejected e :: post)) pre with
+       | .error e' => .error e'
+       | .ok (st, active) =>
+         match flush st active with
+         | .error e' => .error e'
+         | .ok _ => .error e) := by
+  unfold runFile
+  rw [RsslVerif.Lemmas.Include.foldLines_append]
+  cases hp : foldLines inc cur (st0, fileStart (pre ++ .rejected e :: post)) pre with
+  | error e' => rfl
+  | ok s =>
+    obtain ⟨st, active⟩ := s
+    simp only [foldLines, stepLine]
+    cases hf : flush st active with
+    | error e' => rfl
+    | ok st1 => rfl
+
+/-- non-vacuity: `#pragma foo` in front of a line that is never reached (here a malformed `#define`), for every includer
+state; an unknown directive as the only line of a file -/
+example (inc : String → State → Except Err State) (st : State) :
+    runFile inc "main" st [.rejected .unknownPragma, .define (located [])] = .error .unknownPragma := by
+  simp [runFile, foldLines, stepLine, fileStart, flush, applyMacros_nil]
+example (inc : String → State → Except Err State) (st : State) :
+    runFile inc "f1" st [.pragmaOnce, .rejected .unknownCommand] = .error .unknownCommand := by
+  simp [runFile, foldLines, stepLine, fileStart, flush, applyMacros_nil]
+
 /-- non-vacuity: `A=1` then `B=2⏎` -/
 example : initialMacros [] [⟨[.id "A"], [.int "1"]⟩, ⟨[.id "B"], [.int "2", .endline]⟩] = .error .invalidDefine := by
   rfl
